@@ -57,3 +57,13 @@ Theorem C04_teardown_loop_order :
       forall q p, In q pre -> In p (ph_objects q) -> td_obj_done w' ow p.
 Proof. exact tp_order. Qed.
 Print Assumptions C04_teardown_loop_order.
+
+(** The phase-level monitor (coq/corr/PhaseMonitors.v m04p: "reported cleaned up => nothing listed is still
+    controlled") accepts every teardown of the model, for the ObjectSet controllers' flavour, quiet third parties
+    and distinct entries. *)
+From PKOCorr Require Import PhaseCorr PhaseMonitors C05Sound PhaseMonSound.
+Theorem C04_phase_monitor_sound :
+  forall c : pcase, pc_flavor c = FObjectSet -> Util.is_nil (pc_between c) = true ->
+    NoDup (map (desired_key (pc_owner c)) (pc_objects c)) -> m04p (set_obs c (model_run c)) = true.
+Proof. exact m04p_objectset_sound. Qed.
+Print Assumptions C04_phase_monitor_sound.
